@@ -24,8 +24,8 @@ using sim::Rng;
 
 namespace {
 
-enum OpKind : uint16_t { kValidStep, kCall, kBadBind, kBadAlign, kBadEmbedLabel, kBadEmbedDelta, kBadSection, kBadNamedLabel, kBadEmbedArray, kA64Form, kX86ShortJump, kOpCount };
-const char* const kOpNames[kOpCount] = {"valid_step", "call", "bad_bind", "bad_align", "bad_embed_label", "bad_embed_label_delta", "bad_section", "bad_named_label", "bad_embed_array", "a64_form", "x86_short_jump"};
+enum OpKind : uint16_t { kValidStep, kCall, kBadBind, kBadAlign, kBadEmbedLabel, kBadEmbedDelta, kBadSection, kBadNamedLabel, kBadEmbedArray, kA64Form, kX86ShortJump, kX86Locked, kOpCount };
+const char* const kOpNames[kOpCount] = {"valid_step", "call", "bad_bind", "bad_align", "bad_embed_label", "bad_embed_label_delta", "bad_section", "bad_named_label", "bad_embed_array", "a64_form", "x86_short_jump", "x86_locked"};
 const char* op_name(uint16_t k) { return k < kOpCount ? kOpNames[k] : "?"; }
 
 enum HandlerMode { kHandlerNone = 0, kHandlerRecording, kHandlerThrowing, kHandlerModeCount };
@@ -111,7 +111,15 @@ uint32_t perturbed_id(Rng& r) {
 int64_t perturbed_imm(Rng& r) {
   static const int64_t edge[] = {0, 1, -1, 7, 8, 15, 16, 31, 32, 63, 64, 65, 127, 128, 255, 256, 4095, 4096, 4097, 0xffff, 0x10000, 0xffffff, 0x1000000, 0x7fffffff, 0x80000000ll, 0xffffffffll, 0x100000000ll,
                                  int64_t(0x7fffffffffffffffll), int64_t(0x8000000000000000ull), -4096, -4097, -256, -257, 0x00ff00ff00ff00ffll, 0x5555555555555555ll};
-  switch (r.below(4)) { case 0: return int64_t(r.below(64)); case 1: return r.pick(edge); case 2: return int64_t(r.next()); default: return int64_t(r.below(1 << 20)) - (1 << 19); }
+  // field limits times the scale factors instruction encodings use (offsets scaled by 1..16, shifts in steps of 16, ...)
+  static const int64_t limit[] = {0, 1, 2, 3, 7, 8, 15, 16, 31, 32, 33, 63, 64, 65, 127, 128, 129, 255, 256, 257, 511, 512, 4095, 4096, 4097};
+  switch (r.below(6)) {
+    case 0: return int64_t(r.below(64));
+    case 1: return r.pick(edge);
+    case 2: return int64_t(r.next());
+    case 3: case 4: { int64_t v = r.pick(limit) * (int64_t(1) << r.below(5)); return r.chance(1, 3) ? -v : v; }
+    default: return int64_t(r.below(1 << 20)) - (1 << 19);
+  }
 }
 void perturb_a64_operand(Operand_& op, Rng& r, const Labels& ls, const CodeHolder& code) {
   if (op.is_reg()) {
@@ -205,6 +213,39 @@ bool a64_known_invalid(uint32_t inst_id, const Operand_* o, const Operand_* form
     case I::kIdCcmp: case I::kIdCcmn:
       if (n == 4 && is_imm(2) && (imm(2) < 0 || imm(2) > 15)) { *why = "nzcv beyond 4 bits"; return true; }
       if (n == 4 && is_imm(1) && (imm(1) < 0 || imm(1) > 31)) { *why = "5-bit immediate out of range"; return true; }
+      break;
+    case I::kIdLdp: case I::kIdStp: case I::kIdLdnp: case I::kIdStnp: case I::kIdLdpsw:
+      // register pair: signed 7-bit offset scaled by the access size; the non-temporal forms have no write-back
+      if (n == 3 && gp_bits(0) && gp_bits(0) == gp_bits(1) && o[2].is_mem()) {
+        const a64::Mem& m = o[2].as<a64::Mem>();
+        if (m.has_base_reg() && !m.has_index()) {
+          int64_t scale = id == I::kIdLdpsw ? 4 : int64_t(gp_bits(0) / 8), off = m.offset();
+          if (off % scale != 0 || off < -64 * scale || off > 63 * scale) { *why = "register-pair offset is not a multiple of the access size within the signed 7-bit range"; return true; }
+          if ((id == I::kIdLdnp || id == I::kIdStnp) && m.is_pre_or_post() && off != 0 /* write-back by 0 is encoded as the plain form */) { *why = "non-temporal pair with write-back"; return true; }
+        }
+      }
+      break;
+    case I::kIdLdr: case I::kIdStr: case I::kIdLdrb: case I::kIdStrb: case I::kIdLdrh: case I::kIdStrh: case I::kIdLdrsb: case I::kIdLdrsh: case I::kIdLdrsw: case I::kIdLdur: case I::kIdStur:
+      // single general-purpose register: unsigned 12-bit offset scaled by the access size, or signed 9-bit unscaled offset
+      // (the only form with write-back and the only form of ldur/stur)
+      if (n == 2 && gp_bits(0) && o[1].is_mem()) {
+        const a64::Mem& m = o[1].as<a64::Mem>();
+        if (m.has_base_reg() && !m.has_index()) {
+          int64_t scale = (id == I::kIdLdr || id == I::kIdStr || id == I::kIdLdur || id == I::kIdStur) ? int64_t(gp_bits(0) / 8) : (id == I::kIdLdrb || id == I::kIdStrb || id == I::kIdLdrsb) ? 1 : id == I::kIdLdrsw ? 4 : 2;
+          int64_t off = m.offset();
+          bool unscaled = off >= -256 && off <= 255;
+          bool scaled = off >= 0 && off % scale == 0 && off <= 4095 * scale;
+          bool only_unscaled = m.is_pre_or_post() || id == I::kIdLdur || id == I::kIdStur;
+          if (!(unscaled || (scaled && !only_unscaled))) { *why = "load/store offset fits neither the scaled unsigned 12-bit nor the signed 9-bit form"; return true; }
+          if ((id == I::kIdLdur || id == I::kIdStur) && m.is_pre_or_post() && off != 0) { *why = "ldur/stur with write-back"; return true; }
+        }
+      }
+      break;
+    case I::kIdMovz: case I::kIdMovk: case I::kIdMovn:
+      if (n >= 2 && gp_bits(0) && is_imm(1)) {
+        if (imm(1) < 0 || imm(1) > 0xffff) { *why = "16-bit immediate out of range"; return true; }
+        if (n == 3 && is_imm(2) && (pred(2) != 0 || imm(2) < 0 || imm(2) % 16 != 0 || imm(2) >= int64_t(gp_bits(0)))) { *why = "move-wide shift is not lsl #0/16/32/48 within the register"; return true; }
+      }
       break;
     case I::kIdSvc: case I::kIdHvc: case I::kIdSmc: case I::kIdBrk: case I::kIdHlt:
       if (n == 1 && is_imm(0) && (imm(0) < 0 || imm(0) > 0xffff)) { *why = "16-bit immediate out of range"; return true; }
@@ -403,6 +444,31 @@ CallResult perform(Subject& s, const gen::Program& prog, const Op& op, bool* mus
         }
         break;
       }
+      case kX86Locked: {
+        // LOCK is only defined for read-modify-write instructions whose DESTINATION is memory: with a register destination
+        // (whatever the source is) the prefixed instruction raises #UD, so the call cannot be accepted.
+        if (s.target == gen::Target::kA64) break;
+        namespace I = x86::Inst;
+        static const uint32_t two[] = {I::kIdAdd, I::kIdAdc, I::kIdAnd, I::kIdOr, I::kIdSbb, I::kIdSub, I::kIdXor, I::kIdXadd, I::kIdCmpxchg, I::kIdBts, I::kIdBtr, I::kIdBtc};
+        static const uint32_t one[] = {I::kIdInc, I::kIdDec, I::kIdNot, I::kIdNeg};
+        bool is64 = s.target == gen::Target::kX64;
+        x86::Gp r0 = is64 && (op.a[1] & 8) ? x86::Gp(x86::rbx) : x86::Gp(x86::ebx), r1 = r0.is_gp64() ? x86::Gp(x86::rdx) : x86::Gp(x86::edx);
+        x86::Mem m = x86::ptr(is64 ? x86::Gp(x86::rsi) : x86::Gp(x86::esi), int32_t(op.a[1] & 0x70), r0.size());
+        uint32_t shape = uint32_t(uint64_t(op.a[0]) % 6);
+        e.set_inst_options(InstOptions::kX86_Lock);
+        bool dst_is_mem;
+        if (shape < 2) { uint32_t id = one[size_t(uint64_t(op.a[2])) % 4]; dst_is_mem = shape == 0; r.err = dst_is_mem ? e.emit(id, m) : e.emit(id, r0); }
+        else {
+          uint32_t id = two[size_t(uint64_t(op.a[2])) % 12];
+          dst_is_mem = shape == 2 || shape == 5;
+          if (shape == 2) r.err = e.emit(id, m, r1);
+          else if (shape == 3) r.err = e.emit(id, r0, m);
+          else if (shape == 4) r.err = e.emit(id, r0, r1);
+          else r.err = e.emit(id, m, Imm(int64_t(1 + (op.a[1] & 7))));
+        }
+        if (!dst_is_mem) { *must_fail_out = true; s.last_must_fail_other = true; sim::count("c14.probe.lock_without_memory_destination"); }
+        break;
+      }
       case kX86ShortJump: {
         // instructions that only have (or are forced into) the rel8 form: onto a label that is bound too far away they
         // cannot be encoded
@@ -418,7 +484,7 @@ CallResult perform(Subject& s, const gen::Program& prog, const Op& op, bool* mus
           }
         }
         static const uint32_t ids[] = {x86::Inst::kIdJecxz, x86::Inst::kIdLoop, x86::Inst::kIdLoope, x86::Inst::kIdLoopne};
-        uint32_t which = uint32_t(op.a[0] % 6);
+        uint32_t which = uint32_t(uint64_t(op.a[0]) % 6);
         if (which < 4) r.err = e.emit(ids[which], x86::ecx, l);
         else { e.set_inst_options(InstOptions::kShortForm); r.err = e.emit(which == 4 ? x86::Inst::kIdJmp : x86::Inst::kIdJz, l); }
         break;
@@ -480,7 +546,7 @@ void execute(const Plan& plan) {
         if (hm != kHandlerNone && op.kind != kBadNamedLabel && op.kind != kBadSection) {
           if (r.handler_calls == 0) sim::count("c14.probe.error_without_handler_call"); else if (r.handler_calls > 1) sim::count("c14.probe.handler_called_more_than_once");
           // The statement requires the error to be reported through the return value AND the attached handler.
-          if (op.kind == kCall || op.kind == kA64Form || op.kind == kX86ShortJump || op.kind == kValidStep) SIM_CHECK(r.handler_calls >= 1, "c14:error-not-reported-to-handler", "%s returned error %u but the attached error handler was never invoked", op_name(op.kind), unsigned(r.err));
+          if (op.kind == kCall || op.kind == kA64Form || op.kind == kX86ShortJump || op.kind == kX86Locked || op.kind == kValidStep) SIM_CHECK(r.handler_calls >= 1, "c14:error-not-reported-to-handler", "%s returned error %u but the attached error handler was never invoked", op_name(op.kind), unsigned(r.err));
         }
       }
       else {
@@ -628,9 +694,9 @@ Plan generate(uint64_t seed, bool thorough) {
         op.a[3] = int64_t(r.below(2));
       }
       else {
-        static const uint16_t ks[] = {kBadBind, kBadAlign, kBadEmbedLabel, kBadEmbedDelta, kBadSection, kBadNamedLabel, kBadEmbedArray, kX86ShortJump};
+        static const uint16_t ks[] = {kBadBind, kBadAlign, kBadEmbedLabel, kBadEmbedDelta, kBadSection, kBadNamedLabel, kBadEmbedArray, kX86ShortJump, kX86Locked};
         op.kind = r.pick(ks);
-        if (op.kind == kX86ShortJump && target == 2) op.kind = kBadAlign;
+        if ((op.kind == kX86ShortJump || op.kind == kX86Locked) && target == 2) op.kind = kBadAlign;
         op.a[0] = r.chance(1, 2) ? int64_t(r.below(8)) : -int64_t(1 + r.below(8)); op.a[1] = r.chance(1, 2) ? int64_t(r.below(8)) : -int64_t(1 + r.below(8)); op.a[2] = int64_t(r.below(100));
         if (op.kind == kBadAlign || op.kind == kBadEmbedArray || op.kind == kBadNamedLabel) op.a[0] = int64_t(r.below(1000));
         if (op.kind == kBadEmbedLabel) op.a[1] = int64_t(r.below(1000));
